@@ -330,8 +330,94 @@ fn run_program(prog: &[Item], code: &[u8], tiny_stack: bool) -> (Vec<(String, St
     (viol, transitions, hash.0)
 }
 
+/// Every conditional-jump form on its own: 16 conditions x {rel8, rel32} + JRCXZ + JECXZ, under
+/// all 64 status-flag states x 3 RCX values. A taken branch adds exactly one entry (source,
+/// target, kind, count 1); an untaken one adds nothing.
+fn jcc_sweep(e: &mut EnumCtx) {
+    let mut forms: Vec<Vec<u8>> = vec![];
+    for cc in 0..16u8 {
+        forms.push(vec![0x70 + cc, 0x04]);
+        forms.push(vec![0x0F, 0x80 + cc, 0x04, 0, 0, 0]);
+    }
+    forms.push(vec![0xE3, 0x04]);
+    forms.push(vec![0x67, 0xE3, 0x04]);
+    let bits = [0x1u64, 0x4, 0x10, 0x40, 0x80, 0x800];
+    for form in &forms {
+        for fl in 0..64u64 {
+            for rcx in [0u64, 1, 1 << 32] {
+                if !e.next() {
+                    continue;
+                }
+                let mut code = form.clone();
+                code.extend_from_slice(&[0x90; 12]);
+                let flags: u64 = (0..6).filter(|b| fl & (1 << b) != 0).map(|b| bits[b]).sum();
+                e.describe("trace", &format!("conditional form {} flags {flags:#x} rcx {rcx:#x}", crate::common::hex(form)));
+                let mut ax = Axecutor::new(&code, BASE, BASE).unwrap();
+                for k in 0..16 {
+                    ax.reg_write_64(crate::emu::GPR64[k], crate::emu::filler_gpr(k)).unwrap();
+                }
+                ax.reg_write_64(SR::RCX, rcx).unwrap();
+                ax.init_stack(0x100).unwrap();
+                ax.verif_set_rflags(flags);
+                let d = match crate::tmpl::decode_at(&code, BASE) {
+                    Some(d) => d,
+                    None => continue,
+                };
+                let i = d.instr;
+                let taken = match i.mnemonic() {
+                    iced_x86::Mnemonic::Jrcxz => rcx == 0,
+                    iced_x86::Mnemonic::Jecxz => rcx & 0xFFFF_FFFF == 0,
+                    _ => crate::natdiff::eval_cc(i.condition_code(), flags).unwrap_or(false),
+                };
+                let before = ax.verif_trace_entries();
+                let stack_before = ax.verif_call_stack_raw();
+                let out = crate::emu::step(&mut ax);
+                e.count("transitions", 1);
+                e.count("conditional_form_cases", 1);
+                let after = ax.verif_trace_entries();
+                let mut f = crate::common::Fp::new();
+                f.bytes(form);
+                f.u64(flags);
+                f.u64(rcx);
+                e.state(f.0);
+                f.u64(after.len() as u64);
+                e.outcome(f.0);
+                let ctx = format!("`{i}` with flags {flags:#x}, rcx {rcx:#x}");
+                let w = || json!({"program": format!("single conditional jump {}", crate::common::hex(form)), "bytes": crate::common::hex(&code), "flags": flags, "rcx": rcx});
+                match out {
+                    StepOut::Ok(_) => {}
+                    StepOut::Err(er) => {
+                        e.finding("step|failed|conditional-jump", || format!("{ctx}: step failed: {}", crate::emu::first_line(&er)), w);
+                        continue;
+                    }
+                    StepOut::Panic(p) => {
+                        e.finding(&format!("step|panic@{}|balanced", p.tag()), || format!("{ctx}: step panicked"), w);
+                        continue;
+                    }
+                }
+                if !taken {
+                    if after.len() != before.len() {
+                        e.finding("trace|untaken-branch-recorded|jump", || format!("{ctx}: the branch is not taken, yet the trace grew from {} to {} entries", before.len(), after.len()), w);
+                    }
+                } else if after.len() != before.len() + 1 {
+                    e.finding("trace|missing-entry|jump", || format!("{ctx}: the branch is taken, the trace has {} entries (had {})", after.len(), before.len()), w);
+                } else {
+                    let t = &after[after.len() - 1];
+                    if t.kind != TraceKind::Jump || t.instr_ip != BASE || t.target != i.near_branch_target() || t.count != 1 {
+                        e.finding("trace|wrong-entry|jump", || format!("{ctx}: taken to {:#x}, recorded {t:?}", i.near_branch_target()), w);
+                    }
+                }
+                if ax.verif_call_stack_raw() != stack_before {
+                    e.finding("call-stack|differs|jump", || format!("{ctx}: a conditional jump changed the call stack"), w);
+                }
+            }
+        }
+    }
+}
+
 fn gen(maxlen: usize) -> impl Fn(&mut EnumCtx) + Sync {
     move |e: &mut EnumCtx| {
+        jcc_sweep(e);
         for len in 1..=maxlen {
             let total = ITEMS.len().pow(len as u32);
             for idx in 0..total {
@@ -393,7 +479,7 @@ pub fn run(tier: Tier) -> i32 {
         run.findings.merge(f);
         run.cov("devlike_profile_run", summary);
     }
-    enum_evidence(&mut run, &out, "one case = a program of <= L items over {jmp next, dec/jne countdown loop, je taken, je untaken, call next, ret, push addr+ret (unmatched return), mov+call rax, mov+jmp rax, int3, call/ret pair, one indirect jump taken twice with two targets, direct self-recursion, one ret executed twice with the same target}; every program also on a 16-byte stack when shorter than L (nested calls and pushes then fault: a failed transfer must leave no trace entry and no frame); after every step the structured trace and call stack are compared with an independent tracer (iced decode, condition evaluated on the flags, targets from its own operand evaluation, run-length collapse), and trace()/call_stack()/to_string() are rendered under catch_unwind and an allocation guard; states = distinct programs; distinct_nontrivial = distinct trace histories");
+    enum_evidence(&mut run, &out, "one case = (a) one of the 34 conditional-jump forms (16 conditions x rel8/rel32, JRCXZ, JECXZ) under one of 64 flag states and 3 RCX values, or (b) a program of <= L items over {jmp next, dec/jne countdown loop, je taken, je untaken, call next, ret, push addr+ret (unmatched return), mov+call rax, mov+jmp rax, int3, call/ret pair, one indirect jump taken twice with two targets, direct self-recursion, one ret executed twice with the same target}; every program also on a 16-byte stack when shorter than L (nested calls and pushes then fault: a failed transfer must leave no trace entry and no frame); after every step the structured trace and call stack are compared with an independent tracer (iced decode, condition evaluated on the flags, targets from its own operand evaluation, run-length collapse), and trace()/call_stack()/to_string() are rendered under catch_unwind and an allocation guard; states = distinct programs; distinct_nontrivial = distinct trace histories");
     run.cov("program_max_length", json!(maxlen));
     run.guard("cases", out.cases >= 10_000 || out.capped, format!("{} programs", out.cases));
     run.guard("traces-distinct", out.distinct > 100, format!("{} distinct trace histories", out.distinct));
